@@ -54,7 +54,7 @@ def rand_op(rng, names_in, all_names, pool, wind):
         return dict(op="remove", name=rng.choice(names_in + ["ghost"]))
     name = rng.choice(names_in)
     if k < 0.40:
-        mode = rng.choice(["vel_only", "vel_only", "pose", "tiny_pose", "full"])
+        mode = rng.choice(["vel_only", "vel_only", "pose", "position_only", "tiny_pose", "full"])
         return dict(op="set_state", name=name, mode=mode, V=round(rng.uniform(40, 120), 2), alpha=round(rng.uniform(-4, 8), 2),
                     beta=round(rng.uniform(-5, 5), 2), dp=[rng.uniform(-50, 50), rng.uniform(-50, 50), rng.uniform(-50, 50)],
                     E=[rng.uniform(-60, 60), rng.uniform(-30, 30), rng.uniform(-170, 170)])
@@ -65,7 +65,7 @@ def rand_op(rng, names_in, all_names, pool, wind):
     if k < 0.82:
         return dict(op="dist")
     kind = rng.choice(["stab", "damp", "ctrl", "state_derivs", "aero_center", "trim", "trim_noset", "trim_orient", "trim_orient_noset",
-                       "target_CL", "target_CL_noset", "derivs"])
+                       "target_CL", "target_CL_noset", "derivs", "stab_all", "damp_all", "ctrl_all", "state_derivs_all"])
     return dict(op=kind, name=name)
 
 
@@ -96,6 +96,9 @@ def apply_op(sc, o, pool, names_ids, MX):
             if o["mode"] == "pose":
                 st["position"] = [c + d for c, d in zip(cur["position"], o["dp"])]
                 st["orientation"] = o["E"]
+            elif o["mode"] == "position_only":
+                # move (also in altitude) without turning: density / wind / the other aircraft are seen from the new place
+                st["position"] = [cur["position"][0] + o["dp"][0], cur["position"][1] + o["dp"][1], cur["position"][2] + 40.0 * o["dp"][2]]
             elif o["mode"] == "tiny_pose":
                 # a change of attitude far below any sensible comparison tolerance ... but not zero
                 q = np.array(cur["orientation"])
@@ -119,6 +122,14 @@ def apply_op(sc, o, pool, names_ids, MX):
             return canon(sc.damping_derivatives(aircraft=o["name"])), None
         if k == "ctrl":
             return canon(sc.control_derivatives(aircraft=o["name"])), None
+        if k == "stab_all":
+            return canon(sc.stability_derivatives()), None
+        if k == "damp_all":
+            return canon(sc.damping_derivatives()), None
+        if k == "ctrl_all":
+            return canon(sc.control_derivatives()), None
+        if k == "state_derivs_all":
+            return canon(sc.state_derivatives()), None
         if k == "derivs":
             return canon(sc.derivatives()), None
         if k == "state_derivs":
@@ -137,7 +148,7 @@ def apply_op(sc, o, pool, names_ids, MX):
     raise ValueError(k)
 
 
-QUERIES = ("solve", "dist", "stab", "damp", "ctrl", "derivs", "state_derivs", "aero_center", "trim", "trim_noset", "trim_orient",
+QUERIES = ("solve", "dist", "stab", "damp", "ctrl", "stab_all", "damp_all", "ctrl_all", "state_derivs_all", "derivs", "state_derivs", "aero_center", "trim", "trim_noset", "trim_orient",
            "trim_orient_noset", "target_CL", "target_CL_noset")
 
 
@@ -239,7 +250,7 @@ def fsm_case(MX, ops, pool, sd=SD):
         return intern.setdefault(key, len(intern))
     coq, exp = [], []
     for o in ops:
-        if o["op"] in ("trim_orient", "derivs"):
+        if o["op"] in ("trim_orient", "derivs", "stab_all", "damp_all", "ctrl_all", "state_derivs_all"):
             return None      # multi-aircraft aggregate / pose-setting trim: covered by the sweep, not by the trace model
         name = o.get("name")
         got = apply_op(sc, o, pool, names_ids, MX)
@@ -280,7 +291,10 @@ def run(chk):
     for h in range(len(corpus) + nh):
         if h < len(corpus):
             ops, wind, sd = corpus[h], False, copy.deepcopy(SD)
-            if h % 3 == 2:
+            if isinstance(ops, dict):                      # entry with its own atmosphere
+                sd["scene"]["atmosphere"].update(ops.get("atmosphere", {}))
+                ops = ops["ops"]
+            elif h % 3 == 2:
                 wind = True
                 sd["scene"]["atmosphere"]["V_wind"] = [8.0, -6.0, 1.5]
             for o in ops:
@@ -299,6 +313,9 @@ def run(chk):
         sd = copy.deepcopy(SD)
         if wind:
             sd["scene"]["atmosphere"]["V_wind"] = [round(rng.uniform(-15, 15), 2), round(rng.uniform(-15, 15), 2), round(rng.uniform(-3, 3), 2)]
+        if rng.random() < 0.35:
+            sd["scene"]["atmosphere"]["rho"] = "standard"          # position matters: results depend on the altitude
+            chk.count("atmosphere=standard")
         ops, names_in = [], []
         for i in range(rng.randint(4, maxlen)):
             o = rand_op(rng, names_in, all_names, pool, wind)
@@ -345,8 +362,8 @@ def run(chk):
                                              "Theorem C07_queries_fresh no longer applies to this object"), no_input=not chk.violations)
     return chk.finish(
         rule="random histories (4-16 public calls on 1-2 aircraft, with and without wind): add (incl. duplicate names), remove (incl. unknown), "
-             "set_aircraft_state (velocity-only, pose change, sub-tolerance pose change, reset), set_aircraft_control_state, solve_forces with both "
-             "initial guesses, distributions, all derivative functions, aero_center, both trims with and without set state, target_CL; "
+             "set_aircraft_state (velocity-only, pose change, position-only move, sub-tolerance pose change, reset), constant or standard atmosphere, set_aircraft_control_state, solve_forces with both "
+             "initial guesses, distributions, all derivative functions (for one named aircraft and for all aircraft at once), aero_center, both trims with and without set state, target_CL; "
              "non-trivial = at least one state-changing call followed by a query")
 
 
